@@ -42,6 +42,19 @@ fn run_case(kind: &str, idx: u64, rng: &mut Rng, mon: &mut Mon, _tier: Tier) {
     let gp = gen_pose(rng, &rp, pclass);
     let (prev, prev_class) = gen_prev(rng, gp.q.as_ref(), rng.clone().usize(8));
     let _ = rng.next_u64();
+    // one case in twenty: the previous vector is a posture with the SAME tool centre point and another orientation
+    // (re-orienting about a fixed TCP: tilt of 0.001 .. 20 degrees)
+    let (prev, prev_class) = if gp.proper && rng.usize(20) == 0 {
+        let t = iso_to_fr(&gp.iso);
+        let tilt = axis_angle(col(&random_rotation(rng), 0), rng.logu(1e-5, 0.35));
+        let other = Fr { r: Fr::new(tilt, [0.0; 3]).mul(&Fr::new(t.r, [0.0; 3])).r, p: t.p };
+        match call(&kin, Entry::Inverse, &fr_to_iso(&other), &prev, 0.0) {
+            Ok(s) if !s.is_empty() => (s[rng.usize(s.len())], "same_tcp_other_orientation"),
+            _ => (prev, prev_class),
+        }
+    } else {
+        (prev, prev_class)
+    };
     // (one case in thirty hands a non-finite J6 to inverse_5dof: nothing non-finite may come back)
     let j6 = if rng.usize(30) == 0 { *rng.pick(&[f64::NAN, f64::INFINITY, f64::NEG_INFINITY]) } else { *rng.pick(&[0.0, PI, -PI, 1.0, -2.5, 1e3]) };
     mon.count(&format!("pose_class.{}", gp.class));
